@@ -316,14 +316,32 @@ def base_call_predicate(prog: Program, fac: FuncInfo, w: FuncInfo):
     return pred
 
 
-def unexpected_carried(prog: Program, fi: FuncInfo, h: Node) -> tuple[set[str], set[str]]:
+def unexpected_carried(prog: Program, fi: FuncInfo, h: Node, neighbour_registers: bool = False) -> tuple[set[str], set[str]]:
     """(carried, allowed): variables whose value flows from one iteration of loop `h` into the next, and the subset that is
     harmless: output accumulators that are only appended to and never read inside the loop, and one-way switches assigned
-    from loop-invariant values."""
+    from loop-invariant values. With `neighbour_registers`, also a variable that every trip sets - unconditionally, once - to
+    something computed from the current element alone (`prev_is_tag = is_tag(line)`): the next trip reads what it could
+    have computed from its neighbour i-1, nothing older survives."""
     flow = prog.flow(fi)
     carried = flow.loop_carried(h)
     body = flow.loop_body_nodes(h)
     allowed: set[str] = set()
+    if neighbour_registers:
+        from ..cfg import must_edges as _must_edges
+
+        for v in carried:
+            defs_in_body = [d for n in body for d in flow.defs_at[n] if d.var == v]
+            if len(defs_in_body) != 1 or defs_in_body[0].kind != "assign" or defs_in_body[0].value is None:
+                continue
+            d = defs_in_body[0]
+            edges = {(b, lab) for b, lab in (_must_edges(flow.cfg, h, d.node) or set()) if b is not h}
+            if edges:
+                continue  # set on some trips only: an older value would survive
+            sl = prog.slice(fi, d.value, d.node)
+            carried_defs = {dd for dd in sl.defs if dd.var in carried and dd.node in body}
+            outside_carried = {dd for dd in sl.defs if dd.var in carried and dd.node not in body and dd.node is not h}
+            if not carried_defs and not outside_carried:
+                allowed.add(v)
     for v in carried:
         defs_in_body = [d for n in body for d in flow.defs_at[n] if d.var == v]
         if defs_in_body and all(d.kind == "assign" and d.value is not None and
